@@ -278,7 +278,8 @@ type attrArgs struct {
 func isPathAttr(p []string, tree map[string]any, idx []int) bool {
 	m := func(pat string) bool {
 		pp := strings.Split(pat, ".")
-		if len(pp) != len(p) {
+		// a (malformed) composite value at an attribute position belongs to the attribute: prefix match
+		if len(pp) > len(p) {
 			return false
 		}
 		for i := range pp {
@@ -638,6 +639,63 @@ func init() {
 		},
 	})
 
+	// ---- oracle: idempotence of develop.watch paths through real symbolic links (file system = real, in a temp dir)
+	core.Register("c12.symlink", &core.CheckDef{
+		Real: func(raw json.RawMessage) any {
+			var a struct {
+				Nested bool `json:"nested"`
+			}
+			json.Unmarshal(raw, &a)
+			root, err := core.Materialize(map[string]string{"b/keep": "", "d/x/keep": ""})
+			defer os.RemoveAll(root)
+			if err != nil {
+				return map[string]any{"bad": err.Error()}
+			}
+			// a -> b ; (nested) b/c -> d
+			if err := os.Symlink(filepath.Join(root, "b"), filepath.Join(root, "a")); err != nil {
+				return map[string]any{"bad": err.Error()}
+			}
+			if a.Nested {
+				if err := os.Symlink(filepath.Join(root, "d"), filepath.Join(root, "b", "c")); err != nil {
+					return map[string]any{"bad": err.Error()}
+				}
+			} else {
+				os.MkdirAll(filepath.Join(root, "b", "c", "x"), 0o755)
+			}
+			t, get := attrTree("develop.watch.path", "a/c/x")
+			m1, bad := c12Resolve(t, root, nil)
+			if bad != nil {
+				return bad
+			}
+			first := get(m1)
+			m2, bad := c12Resolve(core.DeepCopyVal(any(m1)), root, nil)
+			if bad != nil {
+				return map[string]any{"second": bad}
+			}
+			second := get(m2)
+			f, _ := first.(string)
+			g, _ := second.(string)
+			return map[string]any{"first": strings.ReplaceAll(f, root, "$ROOT"), "second": strings.ReplaceAll(g, root, "$ROOT")}
+		},
+		Judge: func(args, real, drv json.RawMessage) *core.Verdict {
+			if v := core.CrashVerdict(real); v != nil {
+				return v
+			}
+			var r struct {
+				First, Second, Bad string
+				SecondErr          json.RawMessage `json:"second_err"`
+			}
+			json.Unmarshal(real, &r)
+			if r.Bad != "" {
+				return core.Skip(r.Bad)
+			}
+			if r.First != r.Second {
+				return core.Fail("nonidempotent:develop.watch:nested-symlink", fmt.Sprintf("develop.watch path a/c/x resolves to %s, resolving again gives %s (utils.ResolveSymbolicLink replaces only the first symbolic link)", r.First, r.Second))
+			}
+			return nil
+		},
+	})
+
 	core.RegisterProp("C12", runC12)
 }
 
@@ -976,6 +1034,10 @@ func runC12(ctx *core.Ctx) {
 		ctx.Add("c12.attr", attrArgs{Attr: a.Name, Kind: a.Kind, S: p, Wd: pick(c12Wds), Home: pick(c12Homes), Remotes: []string{"oci://", "git@"}})
 		ctx.Count("random-string")
 	}
+
+	ctx.Add("c12.symlink", map[string]any{"nested": false})
+	ctx.Add("c12.symlink", map[string]any{"nested": true})
+	ctx.Count("symlink")
 
 	runC12Loads(ctx)
 }
